@@ -118,6 +118,23 @@ class Adapter(object):
       c = max([0] + list(used)) + s
     return c
 
+  def _flow_mod_form(self, how, buf, ab):
+    """A FLOW_MOD that names buffer `buf`, in the form the spec chose (Buffers!FmHows).  The entries involved
+    never match a frame of this check (ingress ports 70.., ethertype 0x9999); an entry that has to exist
+    beforehand is installed by a flow-mod without buffer."""
+    self.nflows += 1
+    m = rb.match(wildcards=rb.FW_ALL & ~(rb.FW_IN_PORT | rb.FW_DL_TYPE),
+                 in_port=70 + (self.nflows % 3), dl_type=0x9999)
+    drop = rb.flow_mod(m, priority=5, command=rb.FC_DELETE_STRICT)
+    pre = []
+    if how in ("add", "modnew", "modstrictnew"):
+      pre = self.h.send(drop)                                     # make sure there is no such entry
+    else:
+      pre = self.h.send(rb.flow_mod(m, priority=5, actions=b""))  # an identical entry (other actions) exists
+    cmd = {"add": rb.FC_ADD, "addsame": rb.FC_ADD, "mod": rb.FC_MODIFY, "modnew": rb.FC_MODIFY,
+           "modstrict": rb.FC_MODIFY_STRICT, "modstrictnew": rb.FC_MODIFY_STRICT}[how]
+    return pre + self.h.send(rb.flow_mod(m, priority=5, command=cmd, buffer_id=buf, actions=ab))
+
   def step(self, a, args):
     if a == "ToController":
       f, p = args["f"], args["p"]
@@ -150,11 +167,7 @@ class Adapter(object):
       if a == "PacketOut":
         msgs = self.h.send(rb.packet_out(buffer_id=c, in_port=rb.OFPP_NONE, actions=ab))
       else:
-        self.nflows += 1
-        msgs = self.h.send(rb.flow_mod(
-            rb.match(wildcards=rb.FW_ALL & ~(rb.FW_IN_PORT | rb.FW_DL_TYPE),
-                     in_port=70 + (self.nflows % 3), dl_type=0x9999),
-            priority=5, buffer_id=c, actions=ab))
+        msgs = self._flow_mod_form(args.get("how", "add"), c, ab)
       self.bind.pop(c, None)
       r = {"emitted": self._emitted()}
       # an error reply saying the buffer is unknown / empty is not an emission (C13 decides on replies)
@@ -169,10 +182,8 @@ class Adapter(object):
       if a == "PacketOutL":
         data = rb.packet_out(buffer_id=c, in_port=rb.OFPP_NONE, actions=ab)
       else:
-        self.nflows += 1
-        data = rb.flow_mod(rb.match(wildcards=rb.FW_ALL & ~(rb.FW_IN_PORT | rb.FW_DL_TYPE),
-                                    in_port=70 + (self.nflows % 3), dl_type=0x9999),
-                           priority=5, buffer_id=c, actions=ab)
+        self.bind.pop(c, None)
+        return self._list_result(self._flow_mod_form(args.get("how", "add"), c, ab), held)
       self.bind.pop(c, None)          # used: whatever id the step announces is a new binding
       return self._list_result(self.h.send(data), held)
     if a == "PacketOutDataL":
